@@ -108,7 +108,10 @@ def declared_parameters(doc, version):
         if p["in"] == "body":
             body.append(("application/json", p["schema"], p.get("required", False)))
             continue
-        schema = p["schema"] if version != "2.0" else {k: v for k, v in p.items() if k not in STRIP}
+        if "content" in p:
+            schema = next(iter(p["content"].values())).get("schema", {})
+        else:
+            schema = p["schema"] if version != "2.0" else {k: v for k, v in p.items() if k not in STRIP}
         out[p["in"]][p["name"]] = (schema, p.get("required", False))
     if "requestBody" in op:
         for media, entry in op["requestBody"]["content"].items():
